@@ -18,6 +18,7 @@ const CallArgs = "(s0, s1, b0, b1, xs, c0, at)"
 const Helpers = `package main
 
 import (
+	"bytes"
 	"context"
 	"errors"
 	"io"
@@ -60,6 +61,49 @@ func trS(k, v string) string { traceLog = append(traceLog, k); return v }
 func trScript(k string) templ.ComponentScript {
 	traceLog = append(traceLog, k)
 	return templ.ComponentScript{Name: "f_" + k, Function: "function f_" + k + "(){}", Call: "f_" + k + "()", CallInline: "f_" + k + "()"}
+}
+
+// capt renders its children into a plain bytes.Buffer (a writer that cannot be flushed) before writing them out.
+func capt() templ.Component {
+	return templ.ComponentFunc(func(ctx context.Context, w io.Writer) error {
+		ctx = templ.InitializeContext(ctx)
+		children := templ.GetChildren(ctx)
+		ctx = templ.ClearChildren(ctx)
+		var b bytes.Buffer
+		if err := children.Render(ctx, &b); err != nil {
+			return err
+		}
+		if _, err := io.WriteString(w, "{"); err != nil {
+			return err
+		}
+		if _, err := w.Write(b.Bytes()); err != nil {
+			return err
+		}
+		_, err := io.WriteString(w, "}")
+		return err
+	})
+}
+
+// hflush is a hand-written layer that hands its children to templ.Flush() and renders that into a plain writer.
+func hflush() templ.Component {
+	return templ.ComponentFunc(func(ctx context.Context, w io.Writer) error {
+		ctx = templ.InitializeContext(ctx)
+		children := templ.GetChildren(ctx)
+		ctx = templ.ClearChildren(ctx)
+		var b bytes.Buffer
+		if err := templ.Flush().Render(templ.WithChildren(ctx, children), &b); err != nil {
+			return err
+		}
+		ctx = templ.ClearChildren(ctx)
+		if _, err := io.WriteString(w, "<f>"); err != nil {
+			return err
+		}
+		if _, err := w.Write(b.Bytes()); err != nil {
+			return err
+		}
+		_, err := io.WriteString(w, "</f>")
+		return err
+	})
 }
 
 func ignore() templ.Component {
@@ -140,7 +184,7 @@ func (g *G) strExpr() string {
 		c = append(c, "x", "x", `x + "!"`)
 	}
 	if g.o.NonASCII {
-		c = append(c, `"é" + s0`)
+		c = append(c, `"é" + s0`, `"😀" + s1`)
 	}
 	return rng.Pick(g.r, c)
 }
@@ -153,9 +197,19 @@ func (g *G) attr(el string, depth int) string {
 	if g.o.Fragment {
 		return g.fragAttr(el, depth)
 	}
+	if g.hasJS && g.o.CSSJS && g.r.Intn(14) == 0 {
+		return "onclick={ hello(s0, 3) }"
+	}
+	if g.o.Layout && g.r.Intn(16) == 0 {
+		// an expression spanning two lines; whatever follows sits on its continuation line
+		return fmt.Sprintf("data-m={ %s +\n\ts1 }", rng.Pick(g.r, []string{"s0", `"é"`, `"😀"`}))
+	}
 	switch g.r.Intn(12) {
 	case 0:
-		return rng.Pick(g.r, []string{`class="c1 c2"`, `id="i1"`, `data-x="1"`, `title="a &amp; b"`, `title='sq'`, `lang="en"`})
+		return rng.Pick(g.r, []string{`class="c1 c2"`, `id="i1"`, `data-x="1"`, `title="a &amp; b"`, `title='sq'`, `lang="en"`,
+			// character references, with and without the closing semicolon, and both quote kinds
+			`data-r="/s?q=1&amp;copy=2"`, `data-r="AT&amp;#84 corp"`, `data-r="&amp;lt"`, `data-r="a &lt b &gt; c"`, `data-r='it&#39;s'`,
+			`data-r="&quot;x&quot;"`, `data-r="&notit; &amp;amp;"`, `data-r="x &#x26; y"`, `data-r='say "hi"'`})
 	case 1:
 		return rng.Pick(g.r, []string{"hidden", "disabled", "data-flag"})
 	case 2:
@@ -179,6 +233,10 @@ func (g *G) attr(el string, depth int) string {
 		}
 		return fmt.Sprintf(`data-u={ %s }`, g.strExpr())
 	case 7:
+		if g.o.Layout && g.r.Intn(4) == 0 {
+			// a gofmt-able list spread over several lines
+			return "class={\n\t\"k1\",\n\ttempl.KV(\"k2\", b0),\n}"
+		}
 		return rng.Pick(g.r, []string{`class={ "k1", templ.KV("k2", b0) }`, `class={ s0 }`, `class={ templ.Classes("a", s1) }`, `class={ "z" }`})
 	case 8:
 		return rng.Pick(g.r, []string{`style={ "color:red" }`, `style={ s1 }`, `style={ map[string]string{"color": s0} }`})
@@ -293,6 +351,10 @@ func (g *G) node(depth int) *node {
 		}
 		return n
 	case k < 86 && g.o.Calls:
+		if g.o.Layout && g.r.Intn(8) == 0 {
+			// deprecated call syntax, kept on the line of its neighbours
+			return &node{kind: "legacycall", text: rng.Pick(g.r, []string{"c0", g.o.Prefix + "Card" + CallArgs, "ignore()"})}
+		}
 		switch g.r.Intn(6) {
 		case 0:
 			return &node{kind: "call", text: "c0"}
@@ -308,7 +370,7 @@ func (g *G) node(depth int) *node {
 				}
 				hand := []string{"wrap()", "ignore()"}
 				if g.o.OnceFlush {
-					hand = append(hand, "onceA.Once()", "onceB.Once()", "templ.Flush()", `templ.Raw("<r>")`)
+					hand = append(hand, "onceA.Once()", "onceB.Once()", "templ.Flush()", `templ.Raw("<r>")`, "capt()", "hflush()")
 				}
 				return &node{kind: "callblock", text: rng.Pick(g.r, hand), children: g.nodes(depth - 1)}
 			}
@@ -317,6 +379,10 @@ func (g *G) node(depth int) *node {
 			callee := g.o.Prefix + "Card"
 			if g.tIndex+1 < g.nT && g.r.Bool() {
 				callee = fmt.Sprintf("%sT%d", g.o.Prefix, g.tIndex+1+g.r.Intn(g.nT-g.tIndex-1))
+			}
+			if !leaf && g.o.Layout && g.r.Intn(6) == 0 {
+				// arguments over two lines, block opened (and a child placed) on the continuation line
+				return &node{kind: "callinline", text: callee + "(s0,\n\ts1, b0, b1, xs, c0, at)", children: []*node{{kind: "expr", text: g.strExpr()}}}
 			}
 			if leaf || g.r.Bool() {
 				return &node{kind: "call", text: callee + CallArgs}
@@ -353,6 +419,11 @@ func (p *printer) indent(n int) { p.sb.WriteString(strings.Repeat("\t", n)) }
 
 func (p *printer) attrs(as []string, lvl int, multi bool) {
 	for _, a := range as {
+		if strings.HasPrefix(a, "data-m={") && !multi {
+			// printed in place: the next attribute starts on the expression's last line
+			p.sb.WriteString(" " + strings.ReplaceAll(a, "\n", "\n"+strings.Repeat("\t", lvl+1)))
+			continue
+		}
 		if strings.Contains(a, "\n") || multi {
 			p.sb.WriteString("\n")
 			ls := strings.Split(a, "\n")
@@ -376,7 +447,7 @@ func (p *printer) attrs(as []string, lvl int, multi bool) {
 
 func needsOwnLine(n *node) bool {
 	switch n.kind {
-	case "if", "for", "switch", "gocomment", "callblock", "gocode", "call", "children":
+	case "if", "for", "switch", "gocomment", "callblock", "callinline", "gocode", "call", "children":
 		return true
 	}
 	return false
@@ -511,8 +582,16 @@ func (p *printer) node(n *node, lvl int) {
 		}
 		p.indent(lvl)
 		p.sb.WriteString("}")
+	case "legacycall":
+		p.sb.WriteString("{! " + n.text + " }")
 	case "call":
 		p.sb.WriteString("@" + n.text)
+	case "callinline":
+		p.sb.WriteString("@" + strings.ReplaceAll(n.text, "\n", "\n"+strings.Repeat("\t", lvl)) + " { <b>")
+		for _, c := range n.children {
+			p.node(c, lvl+1)
+		}
+		p.sb.WriteString("</b> }")
 	case "callblock":
 		p.sb.WriteString("@" + n.text + " {")
 		p.block(n.children, lvl)
